@@ -25,12 +25,13 @@ the `notes`/`meta.json` of the change. `detected` = exit 1 + VIOLATION line.
 |---|---|---|---|
 %s
 
-Changes that were first missed and led to stronger checks (32 of 108): round 1 - C07-b, C08-a,
+Changes that were first missed and led to stronger checks (47 of 144): round 1 - C07-b, C08-a,
 C08-b, C11-b; round 2 - C02-c, C07-d, C08-c, C08-d, C09-d, C10-c, C10-d, C11-c, C12-c, C13-d,
 C14-d, C15-d, C17-c, C18-c; round 3 - C02-e, C02-f, C04-f, C06-f, C09-f, C11-f, C12-e, C13-f,
-C17-f, C18-e, C18-f (+ C06-e, C07-e, caught by the copy probe that C02-f motivated). What was added
-for each is in section 8. Release-only changes (C01-d, C03-c, C05-c, C13-f) and debug-only ones
-(C10-f) are caught because every behavioural check runs both builds.
+C17-f, C18-e, C18-f; round 4 - C02-h, C03-h, C05-g, C07-h, C08-h, C13-g, C14-g, C15-g, C15-h,
+C16-g, C17-g, C17-h, C18-h. What was added for each is in section 8. Release-only changes (C01-d,
+C03-c, C05-c, C05-h, C13-f) and debug-only ones (C03-h, C10-f, C11-h) are caught because every
+behavioural check runs a build with and a build without debug assertions.
 """ % (len(rows), "\n".join(rows))
 p = os.path.join(V, "DESIGN.md")
 s = open(p).read()
